@@ -9,6 +9,8 @@ spec fn sig_spec(instr: u16) -> Option<SignificantInstr> {
     else if op == 0xF && instr & 0xFFu16 == 0x25 { Some(SignificantInstr::Halt) }
     else { None }
 }
+/// JSR / JSRR (opcode 4) and CALL (opcode 0xD, bits 11:10 = 11) — from the ISA and the extension's documentation
+spec fn is_call_spec(w: u16) -> bool { w >> 12 == 4u16 || (w >> 12 == 0xDu16 && (w >> 10) & 3u16 == 3u16) }
 spec fn at_halt(s: RunState) -> bool { sig_spec(s.mem[s.pc as int]) == Some(SignificantInstr::Halt) }
 
 /// address arithmetic of `label+offset` and `^offset`: mathematical sum, accepted only inside user space
@@ -98,7 +100,8 @@ spec fn will_execute(orig: u16, s: RunState) -> bool { in_user(orig, s.pc as int
 spec fn after_resume(c: Command, s: RunState) -> Status {
     match c {
         Command::Continue => Status::Continue,
-        Command::StepOver => Status::StepOver { return_addr: add16(s.pc, 1) },
+        // `step`: only a call is stepped over (the call itself is about to run: depth 1); anything else is ONE instruction
+        Command::StepOver => if is_call_spec(s.mem[s.pc as int]) { Status::StepOver { return_addr: add16(s.pc, 1), depth: 1 } } else { Status::WaitForAction },
         Command::StepInto { count } => if count >= 2 { Status::StepInto { count: (count - 2) as u16 } } else { Status::WaitForAction },
         Command::StepOut => if sig_spec(s.mem[s.pc as int]) == Some(SignificantInstr::Return) { Status::WaitForAction } else { Status::Finish },
         _ => Status::WaitForAction,
@@ -109,7 +112,7 @@ spec fn is_resuming(c: Command) -> bool { c is Continue || c is StepOver || c is
 spec fn resume_status(c: Command, s: RunState) -> Status {
     match c {
         Command::Continue => Status::Continue,
-        Command::StepOver => Status::StepOver { return_addr: add16(s.pc, 1) },
+        Command::StepOver => if is_call_spec(s.mem[s.pc as int]) { Status::StepOver { return_addr: add16(s.pc, 1), depth: 0 } } else { Status::StepInto { count: 0 } },
         Command::StepInto { count } => Status::StepInto { count: (count - 1) as u16 },
         Command::StepOut => Status::Finish,
         _ => Status::WaitForAction,
@@ -117,4 +120,12 @@ spec fn resume_status(c: Command, s: RunState) -> Status {
 }
 /// next_action consumed at least one command between a and b
 spec fn na_consumed(a: Debugger, b: Debugger) -> bool { remaining(b.command_reader) < remaining(a.command_reader) }
-spec fn stepover_reached(p: Status, s: RunState) -> bool { p matches Status::StepOver { return_addr } && s.pc == return_addr }
+/// C10: the stepped-over subroutine is complete when control is at the following address AND every call made since has
+/// returned (a recursive call reaches that address earlier, one activation too deep)
+spec fn stepover_reached(p: Status, s: RunState) -> bool { p matches Status::StepOver { return_addr, depth } && s.pc == return_addr && depth == 0 }
+/// call depth after the instruction `w` that is about to execute
+spec fn depth_after(depth: u16, w: u16) -> u16 {
+    if is_call_spec(w) { if depth == 0xFFFF { depth } else { (depth + 1) as u16 } }
+    else if sig_spec(w) == Some(SignificantInstr::Return) { if depth == 0 { depth } else { (depth - 1) as u16 } }
+    else { depth }
+}
